@@ -290,6 +290,35 @@ func propC26(rt *rapid.T) {
 	base := genHashData(rt, "base")
 	family := []c26Variant{{base, "base", false}}
 	classes := []string{}
+	// recorded when the property function returns OR stops at a violation (so that a violating run
+	// still shows what it explored)
+	defer func() {
+		distinct := map[string]struct{}{}
+		hows := []string{}
+		for _, v := range family {
+			distinct[canonKey(v.r)] = struct{}{}
+			hows = append(hows, v.how)
+		}
+		keys := make([]string, 0, len(distinct))
+		for k := range distinct {
+			keys = append(keys, k)
+		}
+		sort.Strings(keys)
+		classes = append(classes, nClass("metadata", len(base.Metadata)), nClass("extensions", len(base.Extensions)))
+		if len(base.Data) == 0 {
+			classes = append(classes, "data:empty")
+		}
+		if len(base.Salt) == 8 {
+			classes = append(classes, "salt:8-bytes")
+		} else {
+			classes = append(classes, "salt:other")
+		}
+		nontrivial := len(keys) >= 12
+		c.Case(nontrivial, strings.Join(keys, "\x00|\x00"), classes...)
+		if nontrivial {
+			c.Sample(map[string]any{"base": describe(base), "variants": hows, "pairwise_different_requests": len(keys)})
+		}
+	}()
 	add := func(r *pairingtypes.RelayPrivateData, how string, shift bool) {
 		if r == nil {
 			return
@@ -448,29 +477,6 @@ func propC26(rt *rapid.T) {
 		}
 	}
 
-	keys := make([]string, 0, len(distinctKeys))
-	for k := range distinctKeys {
-		keys = append(keys, k)
-	}
-	sort.Strings(keys)
-	classes = append(classes, nClass("metadata", len(base.Metadata)), nClass("extensions", len(base.Extensions)))
-	if len(base.Data) == 0 {
-		classes = append(classes, "data:empty")
-	}
-	if len(base.Salt) == 8 {
-		classes = append(classes, "salt:8-bytes")
-	} else {
-		classes = append(classes, "salt:other")
-	}
-	nontrivial := nd >= 12
-	c.Case(nontrivial, strings.Join(keys, "\x00|\x00"), classes...)
-	if nontrivial {
-		hows := []string{}
-		for _, v := range family {
-			hows = append(hows, v.how)
-		}
-		c.Sample(map[string]any{"base": describe(base), "variants": hows, "pairwise_different_requests": nd})
-	}
 }
 
 // ---- known-finding witness -----------------------------------------------------------------
